@@ -229,3 +229,46 @@ func SetGlobals(legacy, useDefaults bool, o ref6902.Options) {
 		v5.SupportNegativeIndices, v5.AccumulatedCopySizeLimit = o.Neg, o.Limit
 	}
 }
+
+// ---- DecodePatch + accessors (v5) ----
+
+type OpView struct {
+	Kind     string
+	Path     string
+	PathErr  string
+	From     string
+	FromErr  string
+	Value    interface{}
+	ValueErr string
+}
+
+type DecodeView struct {
+	Err    string
+	NilOut bool
+	Ops    []OpView
+	Panic  string
+}
+
+func V5Decode(patch []byte) (d DecodeView) {
+	defer func() {
+		if r := recover(); r != nil {
+			d.Panic = panicText(r)
+		}
+	}()
+	p, err := v5.DecodePatch(patch)
+	d.Err = errText(err)
+	d.NilOut = p == nil
+	for _, op := range p {
+		var v OpView
+		v.Kind = op.Kind()
+		var e error
+		v.Path, e = op.Path()
+		v.PathErr = errText(e)
+		v.From, e = op.From()
+		v.FromErr = errText(e)
+		v.Value, e = op.ValueInterface()
+		v.ValueErr = errText(e)
+		d.Ops = append(d.Ops, v)
+	}
+	return
+}
